@@ -31,6 +31,8 @@ def _drive(args):
     out = []
     for (tid, kind, a, b) in jobs:
         r = drv.rng(seed, 'c03', tid)
+        if tid % 6 == 1:
+            drv.hazard(r)
         if kind == 'single':
             n, mode = a, b
             blocked = bool(mode & 1)
